@@ -156,6 +156,7 @@ fn child_menu() -> Vec<A> {
         A::comment("c"),
         A::el("", "e").child(A::text(" ")),
         A::el("", "e").attr(XML_NS, "space", "preserve").child(A::text(" ")),
+        A::el("", "e").attr(XML_NS, "space", "default").child(A::text(" ")),
     ]
 }
 
@@ -186,10 +187,21 @@ pub fn nth_case(tier: Tier, i: u64) -> Vec<Case> {
         // outer levels also carry a whitespace text sibling so that stripping happens there too
         t = with_space(A::el("", "o"), SPACE[sp[l]]).child(A::text(" ")).child(t);
     }
-    let tree = A::doc(vec![t]);
-    // targets: document, P, first text child of P (if any)
+    // plain document, and a fragment-style document: white space directly under the document node and a second
+    // top-level element
+    let trees = vec![A::doc(vec![t.clone()]), A::doc(vec![A::text(" "), t, A::text("\n"), A::el("", "q").child(A::text(" ")).child(A::el("", "e"))])];
+    let mut out = vec![];
+    for tree in trees {
+        out.extend(cases_for(tree));
+    }
+    out
+}
+
+fn cases_for(tree: A) -> Vec<Case> {
+    // targets: document, every element on the way down to P, P, first text child of P (if any)
     let mut idx_p = 0usize;
     let mut idx_first_text = None;
+    let mut more_text: Vec<usize> = vec![];
     {
         let mut i = 0usize;
         let mut f = |n: &A| {
@@ -210,8 +222,33 @@ pub fn nth_case(tier: Tier, i: u64) -> Vec<Case> {
         if p.ch.first().map(|c| c.k == K::Text).unwrap_or(false) {
             idx_first_text = Some(idx_p + p.attrs.len() + 1);
         }
+        // every further text child of p (a text node between two other text nodes is its own case)
+        let mut at = idx_p + p.attrs.len() + 1;
+        for (n, c) in p.ch.iter().enumerate() {
+            if n > 0 && c.k == K::Text {
+                more_text.push(at);
+            }
+            at += c.size();
+        }
     }
     let mut out = vec![Case { tree: tree.clone(), target: 0 }, Case { tree: tree.clone(), target: idx_p }];
+    {
+        // the outer elements
+        let mut i = 0usize;
+        let mut outer = vec![];
+        tree.walk_all(&mut |n: &A| {
+            if n.k == K::Elem && n.name == "o" {
+                outer.push(i);
+            }
+            i += 1;
+        });
+        for o in outer {
+            out.push(Case { tree: tree.clone(), target: o });
+        }
+    }
+    for t in more_text {
+        out.push(Case { tree: tree.clone(), target: t });
+    }
     if let Some(t) = idx_first_text {
         out.push(Case { tree, target: t });
     }
@@ -245,7 +282,7 @@ pub fn run(tier: Tier) -> i32 {
         return 2;
     }
     let cov = json!({
-        "rule": format!("element p with every sequence of <= {} children from {{<e/>, \"x\", \" \", TAB LF, CR, U+00A0, U+2003, comment, <e> </e>, <e xml:space=preserve> </e>}} (adjacent text nodes included, built with consolidation off) nested in {} levels each with xml:space in {{absent, preserve, default, other}}; called on the document, on p and on p's first text child; distinct = distinct (tree, target) pairs", tier.pick(4, 5), tier.pick(2, 3)),
+        "rule": format!("element p with every sequence of <= {} children from {{<e/>, \"x\", \" \", TAB LF, CR, U+00A0, U+2003, comment, <e> </e>, <e xml:space=preserve> </e>, <e xml:space=default> </e>}} (adjacent text nodes included, built with consolidation off) nested in {} levels each with xml:space in {{absent, preserve, default, other}}; as a plain document and as a fragment-style document (white space directly under the document node, a second top-level element); called on the document, on every outer element, on p and on every text child of p; distinct = distinct (tree, target) pairs", tier.pick(4, 5), tier.pick(2, 3)),
         "trees": tot,
     });
     ctx.finish(stats, cov, vec!["empty text nodes are outside the alphabet (the statement does not classify them)".into()])
